@@ -119,17 +119,8 @@ fn strat() -> BoxedStrategy<Case> {
 }
 
 fn strat_bad() -> BoxedStrategy<Bad> {
-  (gens::depth(), prop_oneof![Just(0u64), Just(1u64), (2u64..1000), any::<u64>()], 0u8..4)
-    .prop_map(|(depth, k, how)| {
-      let n = lattice::n_hash(depth);
-      let hash = match how {
-        0 => n.saturating_add(k % 1000),
-        1 => n.saturating_mul(2).saturating_add(k % 7),
-        2 => u64::MAX - (k % 1000),
-        _ => n.saturating_add(k % (u64::MAX - n)),
-      };
-      Bad { depth, hash }
-    })
+  (gens::depth(), gens::invalid_hash_parts())
+    .prop_map(|(depth, (how, a, b))| Bad { depth, hash: gens::make_invalid_hash(lattice::n_hash(depth), 2 * depth as u32, how, a, b) })
     .boxed()
 }
 
